@@ -355,6 +355,9 @@ func sequenceCheck() *venum.Check {
 		}
 		var all []enc
 		for _, n := range names {
+			if vcodec.Unreadable[n] {
+				continue
+			}
 			for i, v := range corpus[n] {
 				if i >= 2 {
 					break
@@ -451,6 +454,9 @@ func build(tier string) []*venum.Check {
 	names, _ := messages.VerifRegistry()
 	var out []*venum.Check
 	for _, n := range names {
+		if vcodec.Unreadable[n] {
+			continue // rejected by its reader on purpose (used by the remoting checks)
+		}
 		out = append(out, typeCheck(n))
 	}
 	out = append(out, primitiveCheck(), lengthPrefixCheck(), sequenceCheck())
